@@ -147,6 +147,10 @@ func (s *Store) call(ctx context.Context, method, key string, mut bool, val int6
 		s.Refused = append(s.Refused, w)
 		s.mu.Unlock()
 	}
+	if out.Fault == "store.timeout" {
+		// what an etcd-backed store returns when its own request deadline passes
+		return fmt.Errorf("simstore %s: %w", method, context.DeadlineExceeded)
+	}
 	return &StoreInjected{Kind: out.Fault, Method: method}
 }
 
